@@ -9,6 +9,7 @@ package py
 import (
 	"fmt"
 	"sync"
+	"sync/atomic"
 )
 
 type ModuleFlags int32
@@ -54,6 +55,30 @@ type ModuleStore struct {
 	// this should be the frozen module importlib/_bootstrap.py generated
 	// by Modules/_freeze_importlib.c into Python/importlib.h
 	Importlib *Module
+	// Number of frames being run in the owning py.Context
+	callDepth int32
+}
+
+// RecursionLimit is the maximum depth of the Python call stack of a
+// py.Context.  It prevents infinite recursion from overflowing the
+// Go stack, which ends the process.
+const RecursionLimit = 1000
+
+// EnterCall notes that the owning py.Context starts to run a frame.
+//
+// Returns a RuntimeError if there are RecursionLimit frames already,
+// otherwise LeaveCall must be called when the frame is done.
+func (ms *ModuleStore) EnterCall() error {
+	if atomic.AddInt32(&ms.callDepth, 1) > RecursionLimit {
+		atomic.AddInt32(&ms.callDepth, -1)
+		return ExceptionNewf(RuntimeError, "maximum recursion depth exceeded")
+	}
+	return nil
+}
+
+// LeaveCall notes that a frame noted with EnterCall is done
+func (ms *ModuleStore) LeaveCall() {
+	atomic.AddInt32(&ms.callDepth, -1)
 }
 
 func RegisterModule(module *ModuleImpl) {
